@@ -806,6 +806,9 @@ def probe_slp(spec):
     kf = max(1, min(T - 1, int(so['kf'])))          # first future step
     start_future = tg.timepoints[kf]
     rs = np.random.RandomState(seed_of(spec, 'slp'))
+    if so.get('n') == 'nvars':
+        so = dict(so, n=min(len(op.c), 14))          # as many scenarios as variables
+    o['n_samples'] = int(so['n'])
     samples = []
     for s in range(int(so['n'])):
         d = {}
@@ -1038,6 +1041,17 @@ def probe_purity(spec):
             for k in range(len(portf.assets)):
                 agrid[k] = gi
                 ahow[k] = 'setup'
+        elif kind == 'Psk':
+            # a set-up that leaves the balance of one node out (skip_nodes): part of the history only, later set-ups must not depend on it
+            gi = st['g']
+            try:
+                portf.setup_optim_problem(prices(gi, 0), G[gi], skip_nodes=[list(portf.nodes.keys())[st.get('k', 0) % max(len(portf.nodes), 1)]])
+                last_pgrid = gi
+                for k in range(len(portf.assets)):
+                    agrid[k] = gi
+                    ahow[k] = 'setup'
+            except Exception as e:
+                rec['error'] = repr(e)[:200]
         elif kind == 'Pn':
             if last_pgrid is None:
                 continue
